@@ -1139,6 +1139,10 @@ public:
 		if (!d) {
 			return _d.insert(_d.length(), entry(key, value));
 		}
+		/* entries may be shared with copies of the map */
+		if (!_d.detach() || !(d = get(key))) {
+			return false;
+		}
 		*d = value;
 		return true;
 	}
@@ -1150,7 +1154,7 @@ public:
 	{
 		for (entry *c = _d.begin(), *e = _d.end(); c < e; ++c) {
 			if (c->key == key) {
-				return &e->value;
+				return &c->value;
 			}
 		}
 		return 0;
